@@ -429,7 +429,7 @@ def wrap(x, signed, n_word):
     if n_word >= _n_word_max or x.dtype == object:
         # Python integers: wide words, and values that do not fit in int64
         dtype = object
-        x = int_array(x).astype(dtype) & (m - 1)
+        x = np.array(list(map(int, x.flatten())), dtype=dtype).reshape(x.shape) & (m - 1)
     else:
         dtype = int
         x = np.array(x).astype(dtype) & (m - 1) 
@@ -440,6 +440,17 @@ def wrap(x, signed, n_word):
         x = np.where(x < (1 << (n_word-1)), x, x | (-m))
         
     return x
+
+def scale_raw(val, shift):
+    """
+    Returns the raw (integer) value(s) `val` multiplied by 2**shift.
+    Python integers are used when the scaled value(s) would not fit in 63 bits, avoiding a silent wrap of int64/uint64 arrays.
+    """
+    if shift > 0 and isinstance(val, (np.ndarray, np.generic)) and val.dtype != object and val.size > 0 \
+        and np.issubdtype(val.dtype, np.integer):
+        if max(abs(int(np.max(val))), abs(int(np.min(val)))) << shift >= (1 << 63):
+            val = np.asarray(val).astype(object)
+    return val * 2**shift
 
 def get_sizes_from_dtype(dtype):
     if isinstance(dtype, str):
